@@ -130,7 +130,7 @@ Explains(r) ==
          /\ NormUseOk(r, r.e)
          /\ (r.e = "AddSens" => ~I.supplied)
          /\ IF r.e = "Value" THEN Has(r, "val") /\ ValueOk(r, NewVs(r)) ELSE ImageOk(r, r.e)
-    [] r.e = "End" -> r.lines = l - 1
+    [] r.e = "End" -> r.lines >= l - 1          \* (traces are validated in chunks: l counts from the chunk start)
     [] OTHER -> FALSE
 
 Init == l = 1 /\ sys = NoSys /\ I = NoInst /\ m = <<>> /\ f = L!Fresh("U") /\ vs = <<>> /\ bad = <<>>
